@@ -69,7 +69,8 @@ func convertReflectValueToType(rv reflect.Value, rt reflect.Type) (reflect.Value
 			return ptrV, nil
 		}
 	}
-	if rv.Type() == interfaceType {
+	if rv.Kind() == reflect.Interface {
+		// a value held in a slot of any interface type (interface{}, error, ...)
 		if rv.IsNil() {
 			// return nil of correct type
 			return reflect.Zero(rt), nil
